@@ -211,6 +211,23 @@ Example c17_nonvacuous :
    fresh_flow f /\ sendable (i_call f) /\ call_invalid (i_call f) = false).
 Proof. vm_compute. repeat split; auto; try discriminate. Qed.
 
+
+(* ------------------------------------------------------------------ tie to the source by translation *)
+(** The Rust functions below are translated to Gallina from the repository's CURRENT sources on every run
+    (tools/rs2coq.py -> theories/Gen.v); they equal the model's functions for all arguments, so the theorems above
+    hold for what the code says now. A change of one of these functions that is not an equivalent rewrite breaks the
+    proof obligation here. *)
+From Hoot Require Import Gen.
+From Hoot.proofs Require Import Gen_equiv.
+Theorem c17_code_verify_version : forall m v, gen_verify_version m v = verify_version m v.
+Proof. exact gen_verify_version_eq. Qed.
+Theorem c17_code_is_http10 : forall m, gen_is_http10 m = is_http10 m.
+Proof. exact gen_is_http10_eq. Qed.
+Theorem c17_code_is_http11 : forall m, gen_is_http11 m = is_http11 m.
+Proof. exact gen_is_http11_eq. Qed.
+Theorem c17_code_need_request_body : forall m, gen_need_request_body m = need_request_body m.
+Proof. exact gen_need_request_body_eq. Qed.
+
 Print Assumptions c17_invalid_def.
 Print Assumptions c17_content_length_ok_def.
 Print Assumptions c17_framing_def.
@@ -236,3 +253,7 @@ Print Assumptions c17_ex_get_with_length.
 Print Assumptions c17_ex_post_ok.
 Print Assumptions c17_ex_get_despite.
 Print Assumptions c17_nonvacuous.
+Print Assumptions c17_code_verify_version.
+Print Assumptions c17_code_is_http10.
+Print Assumptions c17_code_is_http11.
+Print Assumptions c17_code_need_request_body.
